@@ -2,6 +2,7 @@ SPECIFICATION Spec
 CONSTANTS MaxN = 6 DetSort = TRUE Mut_NoPlusOne = FALSE Mut_GroupFirst = FALSE
 INVARIANT OpEqualsDef
 INVARIANT FastEqualsDef
+INVARIANT CountEqualsDef
 INVARIANT InRange
 INVARIANT Monotone
 INVARIANT TieEqual
